@@ -13,7 +13,8 @@ job (a *pair* of configurations plus, optionally, a mutation of the documents be
    "restore": ["device", "peripherals", "devices", "ports"]}          # which documents are PUT, in this order
 op:
   ["post_port", {id, type, min?, max?, integer?, step?, choices?}] | ["patch_port", id, {attr: value}] | ["patch_value", id, value]
-  | ["delete_port", id] | ["patch_device", {attr: value}] | ["put_slaves", [entry, ...]] | ["post_peripheral", {...}]
+  | ["delete_port", id] | ["patch_device", {attr: value}] | ["put_slaves", [entry, ...]] | ["patch_slave", name, {...}]
+  | ["post_peripheral", {...}]
   | ["delete_peripheral", id]
 mutation (applied to the GET document before PUT):
   ["set", index, key, value] | ["del", index, key] | ["append", entry] | ["insert", index, entry] | ["drop", index]
@@ -310,6 +311,8 @@ class Hub:
                 r = await self.call(self.api_device.patch_device, copy.deepcopy(op[1]))
             elif kind == 'put_slaves':
                 r = await self.call(self.api_slaves.put_slave_devices, copy.deepcopy(op[1]))
+            elif kind == 'patch_slave':      # ["patch_slave", name, {poll_interval | listen_enabled | enabled}]
+                r = await self.call(self.api_slaves.patch_slave_device, op[1], copy.deepcopy(op[2]))
             elif kind == 'post_peripheral':
                 r = await self.call(self.api_peripherals.post_peripherals, copy.deepcopy(op[1]))
             elif kind == 'delete_peripheral':
